@@ -80,7 +80,16 @@ Leave(s) ==
   /\ order' = Unsub(order, s)
   /\ UNCHANGED nextEv
   /\ obs' = [a |-> "Leave", s |-> s]
-Next == \/ \E s \in Subs, chs \in ChanSeqs, f \in Filters, qm \in QMaxes : Subscribe(s, chs, f, qm)
+\* stream_events / wait_event over a list that contains a signal not bound to an instance (the attribute read on the class) raises
+\* UnboundSignal and leaves nothing behind: the bound signal listed before it is not left subscribed, later dispatches are unaffected.
+\* (One representative per state: the first idle subscriber, <<ch, unbound>>, the kind alternating with the event counter.)
+BadSubscribe(s, ch) ==
+  /\ sub[s].st = "off" /\ \A t \in Subs : t < s => sub[t].st # "off"
+  /\ nextEv <= MaxEv
+  /\ UNCHANGED core
+  /\ obs' = [a |-> "BadSubscribe", s |-> s, ch |-> ch, kind |-> IF nextEv % 2 = 0 THEN "wait" ELSE "stream", r |-> "UnboundSignal"]
+Next == \/ \E s \in Subs, ch \in Chans : BadSubscribe(s, ch)
+        \/ \E s \in Subs, chs \in ChanSeqs, f \in Filters, qm \in QMaxes : Subscribe(s, chs, f, qm)
         \/ \E s \in Subs, chs \in ChanSeqs, f \in Filters : WaitEvent(s, chs, f)
         \/ \E ch \in Chans, w \in BOOLEAN : Dispatch(ch, w)
         \/ \E s \in Subs : Consume(s) \/ Leave(s) \/ Abandon(s)
